@@ -14,7 +14,12 @@ RULE = ("typed circuit trees over the whole vocabulary (BS in the three conventi
         "break_in_2_mode_perms), flatten (Processor with circuits at offsets, loss channels in between: flatten(max_depth), "
         "linear_circuit(flatten), non_unitary_circuit(flatten on/off)), simplify (both display modes; the output circuit's "
         "matrix judged by the proved checker mat_close at 1e-9 and by float comparison), perm-utils (extend_perm, "
-        "perm_compose, reduce_perm, invert_permutation, _update_adjacent vs the translated functions). The models follow "
+        "perm_compose, reduce_perm, invert_permutation, _update_adjacent vs the translated functions), sequences "
+        "(programs of 4-10 statements over named circuit variables in ONE process -- new, copy, inverse(v,h) in place, "
+        "decompose_perms(merge on/off), simplify(display on/off) -- whose circuits reuse two permutation vectors, so that "
+        "equal PERMs recur inside a circuit and across statements; after every statement every circuit that shares no "
+        "leaf object with an inverted one is compared with the value semantics of the model; a failure is confirmed and "
+        "shrunk in fresh processes). The models follow "
         "/repo as it is now (after db5cda2f, 47d2b926, 4e70c855); the witnesses of the repaired defects stay in the corpus "
         "and the pre-repair behaviour is still recognised, under its old signature, should it return. "
         "Non-trivial: inverse = a BS with >= 2 distinct non-zero phases is present; simplify = >= 2 PERMs with >= 1 component "
@@ -85,6 +90,25 @@ def enc(node):
     return [4, node["k"], [[o, enc(c)] for o, c in node["items"]]]
 
 
+def _v(x):
+    """angle value of an exact angle or of its plain (float) form used by child processes"""
+    return x.value if hasattr(x, "value") else x
+
+
+def plain(node):
+    """JSON-able form of a tree (floats instead of exact angles): enough to build the perceval object"""
+    k = node["kind"]
+    if k == "BS":
+        return {"kind": "BS", "k": 2, "cv": node["cv"], "t": _v(node["t"]), "ph": [_v(p) for p in node["ph"]]}
+    if k == "PS":
+        return {"kind": "PS", "k": 1, "e": _v(node["e"])}
+    if k == "PERM":
+        return {"kind": "PERM", "k": node["k"], "p": list(node["p"])}
+    if k == "C":
+        return {"kind": "C", "k": node["k"], "items": [[o, plain(c)] for o, c in node["items"]]}
+    raise ValueError(k)
+
+
 def build(node):
     import perceval as pcvl
     from perceval.components import BS, PS, PERM, Unitary, Circuit, LC
@@ -92,10 +116,10 @@ def build(node):
     k = node["kind"]
     if k == "BS":
         ph = node["ph"]
-        return BS(2 * node["t"].value, ph[0].value, ph[1].value, ph[2].value, ph[3].value,
+        return BS(2 * _v(node["t"]), _v(ph[0]), _v(ph[1]), _v(ph[2]), _v(ph[3]),
                   convention=[BSConvention.Rx, BSConvention.Ry, BSConvention.H][node["cv"]])
     if k == "PS":
-        return PS(node["e"].value)
+        return PS(_v(node["e"]))
     if k == "U":
         return Unitary(pcvl.Matrix(gen.qmat_to_np(node["U"])))
     if k == "PERM":
@@ -113,9 +137,9 @@ def show(node):
     if k == "BS":
         ph = node["ph"]
         return "BS.%s(theta=%.6f, phi_tl=%.6f, phi_bl=%.6f, phi_tr=%.6f, phi_br=%.6f)" % (
-            gen.CONV[node["cv"]], 2 * node["t"].value, ph[0].value, ph[1].value, ph[2].value, ph[3].value)
+            gen.CONV[node["cv"]], 2 * _v(node["t"]), _v(ph[0]), _v(ph[1]), _v(ph[2]), _v(ph[3]))
     if k == "PS":
-        return "PS(%.6f)" % node["e"].value
+        return "PS(%.6f)" % _v(node["e"])
     if k == "U":
         return "Unitary(%dx%d exact block)" % (node["k"], node["k"])
     if k == "PERM":
@@ -750,6 +774,322 @@ def stream_perm_utils(ctx, n):
     ctx.streams["perm-utils"] = len(reqs)
 
 
+# ------------------------------------------------------------------ stream: sequences of transformations in one process
+# Programs over named circuit variables: every transformation must behave like a function of its operand's VALUE,
+# whatever was done before in the same process and whatever objects the library shares behind the scenes
+# (decompose -> inverse -> decompose again, equal PERMs inside one circuit, transforming a copy, ...).
+# After every statement every live variable's matrix is compared with the model's (coq/Model/TransformX.v x_seq).
+# Aliasing that the API itself creates (decompose_perms / simplify put the operand's own leaf objects into their
+# result) is respected: an in-place inverse of one circuit retires the circuits that share leaves with it.
+SEQ_VARS = 5
+
+
+def seq_rand_tree(rng, m, pvecs):
+    items = []
+    for _ in range(rng.rint(1, 5)):
+        c = rng.below(6)
+        if c < 3:
+            p = rng.choice(pvecs)
+            items.append((rng.rint(0, m - len(p)), {"kind": "PERM", "k": len(p), "p": list(p)}))
+        elif c < 5:
+            items.append((rng.rint(0, m - 2), rand_bs(rng, unequal=True)))
+        else:
+            items.append((rng.rint(0, m - 1), {"kind": "PS", "k": 1, "e": rand_ang(rng)}))
+    return {"kind": "C", "k": m, "items": items}
+
+
+def seq_liveness(prog):
+    """Per statement: the set of variables whose value is determined (alias groups; see above)."""
+    group, nxt, live, out = {}, 0, set(), []
+    for s in prog:
+        op = s["op"]
+        if op in ("new", "copy"):
+            tgt = s["v"] if op == "new" else s["dst"]
+            group[tgt] = nxt
+            nxt += 1
+            live.add(tgt)
+        elif op in ("dec", "simp"):
+            group[s["dst"]] = group[s["src"]]
+            live.add(s["dst"])
+        else:
+            g = group[s["v"]]
+            for w in list(live):
+                if w != s["v"] and group.get(w) == g:
+                    live.discard(w)
+        out.append(set(live))
+    return out
+
+
+def gen_seq_program(rng):
+    m = rng.rint(4, 6)
+    pvecs = []
+    while len(pvecs) < 2:
+        n = rng.rint(3, min(m, 5))
+        p = rng.shuffle(range(n))
+        if p != list(range(n)):
+            pvecs.append(p)
+    prog = [{"op": "new", "v": 0, "tree": seq_rand_tree(rng, m, pvecs)}]
+    for _ in range(rng.rint(3, 9)):
+        live = sorted(seq_liveness(prog)[-1])
+        op = rng.choice(["new", "copy", "inv", "inv", "dec", "dec", "dec", "simp"])
+        if op == "new":
+            prog.append({"op": "new", "v": rng.below(SEQ_VARS), "tree": seq_rand_tree(rng, m, pvecs)})
+        elif not live:
+            continue
+        elif op == "copy":
+            prog.append({"op": "copy", "dst": rng.below(SEQ_VARS), "src": rng.choice(live)})
+        elif op == "inv":
+            v, h = rng.choice([(0, 1), (0, 1), (1, 0), (1, 1)])
+            prog.append({"op": "inv", "v": rng.choice(live), "fv": v, "fh": h})
+        elif op == "dec":
+            prog.append({"op": "dec", "dst": rng.below(SEQ_VARS), "src": rng.choice(live), "merge": rng.below(2)})
+        else:
+            prog.append({"op": "simp", "dst": rng.below(SEQ_VARS), "src": rng.choice(live), "display": rng.below(2)})
+    return prog
+
+
+def seq_valid(prog):
+    """Every operand is live when used (needed after statements were deleted by the shrinker)."""
+    live = set()
+    lv = None
+    try:
+        lv = seq_liveness(prog)
+    except KeyError:
+        return False
+    prev = set()
+    for s, cur in zip(prog, lv):
+        src = s.get("src", s.get("v") if s["op"] == "inv" else None)
+        if src is not None and src not in prev:
+            return False
+        prev = cur
+    return True
+
+
+def seq_enc(s):
+    op = s["op"]
+    if op == "new":
+        return [0, s["v"], enc(s["tree"])]
+    if op == "copy":
+        return [1, s["dst"], s["src"]]
+    if op == "inv":
+        return [2, s["v"], s["fv"], s["fh"]]
+    if op == "dec":
+        return [3, s["dst"], s["src"], s["merge"]]
+    return [4, s["dst"], s["src"]]
+
+
+def seq_show(s):
+    op = s["op"]
+    if op == "new":
+        return "c%d = %s" % (s["v"], show(s["tree"]))
+    if op == "copy":
+        return "c%d = c%d.copy()" % (s["dst"], s["src"])
+    if op == "inv":
+        return "c%d.inverse(v=%s, h=%s)" % (s["v"], bool(s["fv"]), bool(s["fh"]))
+    if op == "dec":
+        return "c%d = decompose_perms(c%d, merge=%s)" % (s["dst"], s["src"], bool(s["merge"]))
+    return "c%d = simplify(c%d, display=%s)" % (s["dst"], s["src"], bool(s["display"]))
+
+
+def seq_plain(prog):
+    return [dict(s, tree=plain(s["tree"])) if s["op"] == "new" else dict(s) for s in prog]
+
+
+def seq_expected(ctx, prog):
+    mo = ctx.model.run([(1108, [seq_enc(s) for s in prog])])[0]
+    return [{e[0]: un_mat(e[2]) for e in step} for step in mo]
+
+
+def seq_exec(prog, expected):
+    """Runs the program on the implementation. None, or (index, signature, what, expected, observed)."""
+    from perceval.components.comp_utils import decompose_perms
+    from perceval.utils.algorithms.simplification import simplify
+    env = {}
+    lives = seq_liveness(prog)
+    for i, (s, live, exp) in enumerate(zip(prog, lives, expected)):
+        op = s["op"]
+        try:
+            if op == "new":
+                env[s["v"]] = build(s["tree"])
+            elif op == "copy":
+                env[s["dst"]] = env[s["src"]].copy()
+            elif op == "inv":
+                env[s["v"]].inverse(v=bool(s["fv"]), h=bool(s["fh"]))
+            elif op == "dec":
+                env[s["dst"]] = decompose_perms(env[s["src"]], merge=bool(s["merge"]))
+            else:
+                env[s["dst"]] = simplify(env[s["src"]], display=bool(s["display"]))
+        except Exception as e:
+            return (i, f"sequence-{op}-exception-{type(e).__name__}", f"`{seq_show(s)}` raised {e!r}", None, repr(e))
+        tgt = s.get("dst", s.get("v"))
+        for v in sorted(live):
+            U = np_mat(env[v])
+            if not mat_close(U, exp[v]):
+                if v == tgt:
+                    return (i, f"sequence-{op}-wrong-matrix", f"after `{seq_show(s)}` c{v} does not have the matrix the "
+                            "transformation must give for the value of its operand", str(exp[v]), str(U))
+                return (i, f"sequence-{op}-changed-another-circuit", f"`{seq_show(s)}` changed the matrix of c{v}, which "
+                        "shares no component with its target", str(exp[v]), str(U))
+    return None
+
+
+def fixed_ps_inverse(self, v=False, h=False):
+    """PS.inverse with the test it means: `is_symbolic()` called (the code tests the bound method, always true)."""
+    if h:
+        if self._phi.is_symbolic():
+            self._phi = self._set_parameter("phi", -self._phi, None, None)
+        else:
+            self._phi.set_value(-float(self._phi), force=True)
+
+
+def seq_exec_attr(prog, expected):
+    """seq_exec + attribution of an established failure: if it disappears when (only) PS.inverse tests
+    is_symbolic() instead of the bound method, it is the known PS.inverse defect."""
+    r = seq_exec(prog, expected)
+    if r is None:
+        return None
+    from unittest import mock
+    from perceval.components import PS
+    with mock.patch.object(PS, "inverse", fixed_ps_inverse):
+        if seq_exec(prog, expected) is None:
+            return (r[0], "ps-inverse-numeric-phase-becomes-expression", r[2] + " (a numeric PS turned into the expression "
+                    "-phi by an earlier inverse(h=True))", r[3], r[4])
+    return r
+
+
+def child_main():
+    """Fresh-process evaluation of one program (stdin: JSON {prog, expected}); prints the JSON result."""
+    import sys
+    d = json.load(sys.stdin)
+    exp = [{int(k): [[complex(a, b) for a, b in row] for row in m] for k, m in step.items()} for step in d["expected"]]
+    r = seq_exec_attr(d["prog"], exp)
+    print("RESULT " + json.dumps(None if r is None else [r[0], r[1], r[2]]))
+
+
+def seq_child(ctx, prog):
+    """(index, signature, what) of the first failure of `prog` in a fresh python process, or None."""
+    import subprocess
+    import sys
+    exp = seq_expected(ctx, prog)
+    payload = {"prog": seq_plain(prog),
+               "expected": [{str(k): [[[x.real, x.imag] for x in row] for row in m] for k, m in step.items()} for step in exp]}
+    p = subprocess.run([sys.executable, "-c", "from harness.props import c11; c11.child_main()"],
+                       input=json.dumps(payload).encode(), stdout=subprocess.PIPE, stderr=subprocess.PIPE, timeout=300)
+    for line in p.stdout.decode().splitlines():
+        if line.startswith("RESULT "):
+            return json.loads(line[7:])
+    raise RuntimeError("sequence child failed: " + p.stderr.decode()[-800:])
+
+
+def seq_shrink(ctx, prog, sig, budget=12):
+    """Delete statements while the same signature persists in a FRESH process (so the case replays on its own)."""
+    cur = list(prog)
+    r0 = seq_child(ctx, cur)
+    if r0 is not None and r0[1] == sig and r0[0] + 1 < len(cur):
+        cur = cur[:r0[0] + 1]          # nothing after the failing statement matters
+    changed = True
+    while changed and budget > 0:
+        changed = False
+        for i in range(len(cur) - 1, -1, -1):
+            cand = cur[:i] + cur[i + 1:]
+            if not cand or not seq_valid(cand) or budget <= 0:
+                continue
+            budget -= 1
+            r = seq_child(ctx, cand)
+            if r is not None and r[1] == sig:
+                cur = cand
+                changed = True
+    return cur
+
+
+def seq_rename(prog, off):
+    out = []
+    for s in prog:
+        t = dict(s)
+        for k in ("v", "dst", "src"):
+            if k in t:
+                t[k] = t[k] + off
+        out.append(t)
+    return out
+
+
+def stream_sequences(ctx, n):
+    rng = ctx.rng.fork("sequences")
+    progs = list(corpus_sequences())
+    for i in range(n):
+        progs.append(gen_seq_program(rng.fork(i)))
+    outs = ctx.model.run([(1108, [seq_enc(s) for s in p]) for p in progs])
+    reported = set()
+    history = []
+    for p, mo in zip(progs, outs):
+        exp = [{e[0]: un_mat(e[2]) for e in step} for step in mo]
+        ops = [s["op"] for s in p]
+        nontrivial = any(a in ("dec", "simp", "copy") for a in ops) and "inv" in ops and len(p) >= 4
+        ctx.case(["seq", [[s["op"], s.get("v"), s.get("dst"), s.get("src"), s.get("fv"), s.get("fh"), s.get("merge"),
+                           s.get("display"), key(s["tree"]) if "tree" in s else None] for s in p]], nontrivial,
+                 {"stream": "sequences", "program": [seq_show(s) for s in p]})
+        for a in ops:
+            ctx.count("sequences." + a)
+        history.append(p)
+        r = seq_exec_attr(p, exp)
+        if r is None:
+            continue
+        idx, sig, what, e_, o_ = r
+        case = {"program": [seq_show(s) for s in p], "failing_statement_index": idx}
+        if sig not in reported:
+            reported.add(sig)
+            alone = seq_child(ctx, p)
+            if alone is not None and alone[1] == sig:
+                small = seq_shrink(ctx, p, sig)
+                case = {"program": [seq_show(s) for s in small], "replays_in_a_fresh_process": True,
+                        "shrunk_from": [seq_show(s) for s in p]}
+            else:
+                # the failure needs what earlier programs of this process left behind: keep the shortest suffix of
+                # the history (variables renamed apart) that reproduces it in a fresh process, then shrink that
+                k, found = 1, None
+                while k <= 16:
+                    tail = history[-min(k, len(history)):]
+                    cat = [s for j, q in enumerate(tail) for s in seq_rename(q, j * SEQ_VARS)]
+                    rr = seq_child(ctx, cat)
+                    if rr is not None and rr[1] == sig:
+                        found = cat
+                        break
+                    if k >= len(history):
+                        break
+                    k *= 2
+                if found is not None:
+                    small = seq_shrink(ctx, found, sig)
+                    case = {"program": [seq_show(s) for s in small], "replays_in_a_fresh_process": True,
+                            "note": "needs the state left by earlier statements of the same process"}
+                else:
+                    case["replays_in_a_fresh_process"] = False
+        ctx.fail(sig, what, case, e_, o_)
+    ctx.streams["sequences"] = len(progs)
+
+
+def corpus_sequences():
+    """Shapes of past misses (no literal witness): decompose -> inverse -> decompose an equal permutation again;
+    two equal permutations in one circuit, decomposed without merging, then inverted; transform a copy."""
+    a, b = Ang(3, 4, 5), Ang(5, 12, 13)
+    bs1 = {"kind": "BS", "k": 2, "cv": 0, "t": a, "ph": [b, ONE, a, ONE]}
+    out = []
+    for p in ([1, 2, 0], [1, 2, 3, 0], [2, 0, 3, 1]):
+        n = len(p)
+        t1 = {"kind": "C", "k": n + 1, "items": [(0, dict(bs1)), (0, {"kind": "PERM", "k": n, "p": p}), (1, dict(bs1))]}
+        t2 = {"kind": "C", "k": n + 1, "items": [(1, {"kind": "PERM", "k": n, "p": p}), (0, dict(bs1))]}
+        t3 = {"kind": "C", "k": n, "items": [(0, {"kind": "PERM", "k": n, "p": p}), (0, dict(bs1)), (0, {"kind": "PERM", "k": n, "p": p})]}
+        for merge in (0, 1):
+            out.append([{"op": "new", "v": 0, "tree": t1}, {"op": "dec", "dst": 1, "src": 0, "merge": merge},
+                        {"op": "inv", "v": 1, "fv": 0, "fh": 1}, {"op": "new", "v": 2, "tree": t2},
+                        {"op": "dec", "dst": 3, "src": 2, "merge": 1 - merge}])
+            out.append([{"op": "new", "v": 0, "tree": t3}, {"op": "dec", "dst": 1, "src": 0, "merge": merge},
+                        {"op": "inv", "v": 1, "fv": 0, "fh": 1}])
+        out.append([{"op": "new", "v": 0, "tree": t1}, {"op": "copy", "dst": 1, "src": 0}, {"op": "inv", "v": 1, "fv": 1, "fh": 1},
+                    {"op": "dec", "dst": 2, "src": 0, "merge": 0}, {"op": "copy", "dst": 3, "src": 2}, {"op": "inv", "v": 3, "fv": 0, "fh": 1},
+                    {"op": "simp", "dst": 4, "src": 0, "display": 0}])
+    return out
+
+
 # ------------------------------------------------------------------ run
 def run(ctx):
     inv_reqs = stream_inverse(ctx, ctx.n(120, 1500))
@@ -762,6 +1102,8 @@ def run(ctx):
     ctx.log("simplify done")
     stream_perm_utils(ctx, ctx.n(300, 3000))
     ctx.log("perm-utils done")
+    stream_sequences(ctx, ctx.n(250, 4000))
+    ctx.log("sequences done")
     sample = inv_reqs[18:18 + (3 if ctx.quick() else 20)] + [(1105, [4, [2, 0, 3, 1]]), (1106, [4, [[2, 3], [1, 2]]])]
     a = ctx.model.run(sample)
     b = ctx.model.vm_crosscheck(sample, "c11")
